@@ -192,6 +192,22 @@ async fn post_handshake(ctx: &mut Ctx, ty: &str, cut: &str, fault: &str, order: 
             "XPUB" | "PUB" => sim::complete(e.sock.send(&[b"z-topic".to_vec(), b"x".to_vec()])).await,
             _ => sim::complete(e.sock.send(&rc::tagged(32, 0, &[3]))).await,
         };
+        if ty == "SUB" {
+            // whatever the call returned, the change reached every live publisher
+            let mut want = vec![1u8];
+            want.push(b'w');
+            for (k, l) in e.live.iter().enumerate() {
+                let told = l.out_msgs().map(|m| m.iter().any(|f| f.len() == 1 && f[0] == want)).unwrap_or(false);
+                if !told {
+                    ctx.violation_with(
+                        &sig("live-peer-disturbed"),
+                        format!("subscribe() met a dead publisher ({fault}, {cut}); live publisher {k} was not told about the subscription"),
+                        case.clone(),
+                    );
+                    return;
+                }
+            }
+        }
         match r {
             Ok(Err(err)) if is_io_error_text(&err.text) => {
                 observed_by_write = true;
